@@ -326,7 +326,7 @@ def decide(prop, tier, repo, seed, only_units=None, quiet=False):
                     # (known_findings.json, kind "bounded") is a KNOWN-FINDING, anything else a violation
                     fl = [l.strip() for l in out.split("\n") if l.strip().startswith("VX-BOUNDED-FAIL")]
                     other = [l.strip() for l in out.split("\n") if l.strip().startswith("VX-BOUNDED ") ]
-                    kb = [k for k in known.get("findings", []) if k.get("kind") == "bounded" and k["property"] == prop and k.get("filter") == bd["filter"]]
+                    kb = [k for k in known.get("findings", []) if k.get("kind") == "bounded" and prop in (k.get("properties") or [k["property"]]) and k.get("filter") == bd["filter"]]
                     unmatched, hit = [], set()
                     for l in fl:
                         key = " ".join(l.split()[1:3])
@@ -370,7 +370,7 @@ def decide(prop, tier, repo, seed, only_units=None, quiet=False):
             import corpus
             try:
                 ran, failing, cout = corpus.run(prop, repo)
-                known_ids = set(k.get("id") for k in known.get("findings", []) if k["property"] == prop)
+                known_ids = set(k.get("id") for k in known.get("findings", []) if prop in (k.get("properties") or [k["property"]]))
                 corpus_info = {"label": "regression histories on the real crate (cargo test); testing, not proof", "ran": ran,
                                "failing": failing, "when": "thorough tier" if tier == "thorough" else "after a failed obligation"}
                 for fl in failing:
